@@ -168,7 +168,7 @@ class GITCommands:
         return self.normal_actions.read(path)
 
     def _do(self, args):
-        _execute(["git"] + args, cwd=self.root)
+        _check_call(["git"] + args, cwd=self.root)
 
     def _in_dir(self, path):
         if path.startswith(self.root):
@@ -202,13 +202,20 @@ class DarcsCommands:
         self.normal_actions.write(path, data)
 
     def _do(self, args):
-        _execute(["darcs"] + args, cwd=self.root)
+        _check_call(["darcs"] + args, cwd=self.root)
 
 
 def _execute(args, cwd=None):
     process = subprocess.Popen(args, cwd=cwd, stdout=subprocess.PIPE)
     process.wait()
     return process.returncode
+
+
+def _check_call(args, cwd=None):
+    """Run a command that has to have its effect"""
+    status = _execute(args, cwd=cwd)
+    if status != 0:
+        raise OSError("`%s` exited with status %s" % (" ".join(args), status))
 
 
 def unicode_to_file_data(contents: str, encoding=None, newlines=None) -> FileContent:
